@@ -14,9 +14,11 @@ def prepare(prog):
     def belongs(s):
         txt = ast.unparse(s)
         return "row[" not in txt and "writer" not in txt
-    out = extract_block(prog, f"{MT}:snap_command", "snap_arith", is_start, belongs, ["original", "ticks_per_second"], "snapped")
-    prepare_tasks(prog)
-    return out
+    try:
+        prepare_tasks(prog)
+    except KeyError:
+        pass        # build_tasks is then reported as unreachable on its own
+    return extract_block(prog, f"{MT}:snap_command", "snap_arith", is_start, belongs, ["original", "ticks_per_second"], "snapped")
 
 
 def prepare_tasks(prog):
